@@ -27,7 +27,7 @@ EXHAUSTIVE = {"quick": True, "thorough": True}
 WALL_BUDGET = {"quick": 900, "thorough": 7200}
 
 QUICK_SCRIPTS = ["login_quit", "walk", "stor_pasv", "stor_epsv_after", "retr_pasv", "retr_epsv_after", "retr_rest",
-                 "list", "mlsd", "rename", "two_transfers", "pasv_twice", "noconnect", "appe", "stor_slow", "abor_mid"]
+                 "list", "mlsd", "rename", "two_transfers", "pasv_twice", "noconnect", "appe", "stor_slow", "abor_mid", "pipelined"]
 ACTIONS = ["rst", "fin", "ctrl-rst", "server-close"]
 
 
